@@ -48,6 +48,61 @@ def scenarios3():
     return out
 
 
+VSIZE = {a: 33 + 60 * a + 7 for a in (1, 2, 3)}      # sys.getsizeof(tf(a)): the size the cache accounts for a value
+MEMSIZE = 16                                          # sys.getsizeof(None): a memento-only entry
+
+
+def mech_validate(rep, r, wd, quick):
+    """code -> mechanism spec: executions of the leaf-call scenarios recorded at the backend calls and the per-call mutex
+    must be behaviours of Threads.tla (TraceThreads.tla), down to the cache the real object shows at the end"""
+    import os
+    simple = [s for s in scenarios() + ([] if quick else scenarios3())
+              if all(len(c) == 1 and c[0][0] == "tf" and c[0][1] in VSIZE for c in s["threads"])]
+    jobs = []
+    for s in simple:
+        probe_n = 700
+        scheds = [{"random": r.randrange(1 << 30), "p": r.choice([0.02, 0.05, 0.15, 0.4])} for _ in range(6 if quick else 60)]
+        scheds += [{"start": s0, "preempts": [[r.randrange(2, probe_n), 1 - s0]]} for s0 in (0, 1) for _ in range(2 if quick else 20)]
+        jobs.append({"scenario": dict(s, mech=True), "schedules": scheds})
+    traces = common.run_jobs_flat("sched_worker.py", jobs, wd, timeout=3000)
+    groups = {}
+    for t in traces:
+        m = t.get("mech")
+        if m:
+            groups.setdefault((len(m["cfg"]["want"]), t["cfg"]["budget"]), []).append((t, m))
+    nrej, ntr, nev, notes = 0, 0, 0, []
+    specdir = tlc._prepare(wd, "TraceThreads")
+    for (nthr, budget), items in sorted(groups.items()):
+        name = "TT_%d_%d" % (nthr, budget)
+        with open(os.path.join(specdir, name + ".tla"), "w") as f:
+            f.write("---- MODULE %s ----\nEXTENDS TraceThreads\nTKeys == {1, 2, 3}\nTVSize == <<%d, %d, %d>>\n====\n"
+                    % (name, VSIZE[1], VSIZE[2], VSIZE[3]))
+        with open(os.path.join(specdir, name + ".cfg"), "w") as f:
+            f.write("CONSTANTS\n  Threads = {%s}\n  Keys <- TKeys\n  Wants <- NoSet\n  Warms <- NoSet\n  VSize <- TVSize\n  MemSize = %d\n"
+                    "  Budget = %d\n  CacheAtomic = TRUE\n  defaultInitValue = defaultInitValue\nINIT TraceInit\nNEXT TraceNext\n"
+                    "CONSTRAINT Open\nPOSTCONDITION TraceReport\nCHECK_DEADLOCK FALSE\n"
+                    % (", ".join(str(i + 1) for i in range(nthr)), MEMSIZE, budget))
+        payload = [m for _, m in items]
+        rej, vr = tlc.validate_traces(name, payload, wd, cfg=name + ".cfg", timeout=1500)
+        rep.add_tlc(vr, "mechanism trace validation TraceThreads (%d threads, budget %d: recorded executions are behaviours of Threads.tla)" % (nthr, budget))
+        ntr += len(payload)
+        nev += sum(len(m["ev"]) for m in payload)
+        for rj in rej:
+            nrej += 1
+            t, m = items[rj["tid"] - 1]
+            if len(notes) < 5:
+                notes.append({"scenario": t["cfg"]["scenario"], "sched": t["sched"], "explained": rj["prefix"], "of": len(m["ev"]),
+                              "around": m["ev"][max(0, rj["prefix"] - 4):rj["prefix"] + 2], "init": m["cfg"]})
+    rep.cov["mechanism_traces"] = ntr
+    rep.cov["mechanism_events"] = nev
+    rep.cov["nonconformances"] = rep.cov.get("nonconformances", 0) + nrej
+    if nrej:
+        print("NONCONFORMANCE: %d of %d recorded executions are not behaviours of Threads.tla (informational)" % (nrej, ntr))
+        for n_ in notes[:3]:
+            print("  " + json.dumps(n_)[:700])
+        rep.cov["nonconformance_notes"] = notes
+
+
 def bound1_schedules(nthreads, nsteps, stride=1):
     """All schedules with at most one preemption (plus the non-preemptive ones)."""
     out = []
@@ -114,6 +169,8 @@ def run(prop, tier):
         traces = [t for t in chunks]
         common.tick("executed %d schedules" % len(traces))
 
+        mech_validate(rep, r, wd, quick)
+        common.tick("mechanism traces validated")
         payload = [{"cfg": {"warm": t["cfg"]["warm"], "budget": t["cfg"]["budget"]}, "ev": t["ev"]} for t in traces]
         rej, vr = tlc.validate_traces("TraceSingleFlight", payload, wd, timeout=1500)
         rep.add_tlc(vr, "trace validation TraceSingleFlight")
